@@ -63,6 +63,27 @@ func genC08(t *core.Tape, tier string) *Scenario {
 		}
 	}
 	fixCompat(&c, &h)
+	if t.Bool(1, 5, "nil.constructors") {
+		// an algorithm "registered" with nil constructors: documented as a
+		// no-op, so the side behaves exactly as if the call were not there
+		name := append([]string{"gzip"}, algoUniverse...)[t.Choose(1+len(algoUniverse), "nil.which")]
+		in := func(l []string) bool {
+			for _, x := range l {
+				if x == name {
+					return true
+				}
+			}
+			return false
+		}
+		if t.Bool(1, 2, "nil.on.client") {
+			if !in(c.Accept) {
+				c.NilAccept = []string{name}
+			}
+		} else if !in(h.Comp) {
+			h.NilComp = []string{name}
+		}
+		sc.Notes["nil_constructor_registration"]++
+	}
 	sc.AlgoYield = t.Bool(1, 2, "algo.yield")
 	h.ReadMax, c.ReadMax = 1<<20, 1<<20
 	sc.Handlers = []HandlerCfg{h}
